@@ -110,6 +110,7 @@ class SimTxTransport:
         self.outbuf = bytearray()  # written, not yet flushed
         self.written_total = 0
         self.flushed_total = 0
+        self.calls_after_gone = []  # names of transport methods invoked after connectionLost was delivered
         self.observers = []  # callables(data) seeing every accepted write()
         self.lost_reason = None
         self.escaped = []  # exceptions that escaped protocol callbacks
@@ -141,13 +142,19 @@ class SimTxTransport:
         for d in seq:
             self.write(d)
 
+    def _after_gone(self, name):
+        if self.disconnected:
+            self.calls_after_gone.append(name)
+
     def loseConnection(self):
+        self._after_gone("loseConnection")
         self.run.log("loseConnection", self.name, self.connected, self.disconnecting)
         if self.connected and not self.disconnecting and not self.aborting:
             self.disconnecting = True
             self.reading = False
 
     def abortConnection(self):
+        self._after_gone("abortConnection")
         self.run.log("abortConnection", self.name, self.disconnected, self.aborting)
         if self.disconnected or self.aborting:
             return
@@ -172,15 +179,17 @@ class SimTxTransport:
         pass
 
     def registerProducer(self, producer, streaming):
-        pass
+        self._after_gone("registerProducer")
 
     def unregisterProducer(self):
-        pass
+        self._after_gone("unregisterProducer")
 
     def pauseProducing(self):
+        self._after_gone("pauseProducing")
         self.reading = False
 
     def resumeProducing(self):
+        self._after_gone("resumeProducing")
         if self.connected and not self.disconnecting and not self.aborting:
             self.reading = True
 
